@@ -47,7 +47,7 @@ CHECKS["C10"] = dict(
     design_ref="DESIGN.md section 3, C09/C10",
 )
 
-_RES_NOTE = "Bounds: lists of 3 citations over 9 abstract kinds (quick C07/C08 add the 4-citation slices over {full case, short} and {full case, supra}; thorough adds optional party names / reference name fields at length 3 and every 4-citation list over the 5-6 kinds the property is about - all 9 kinds at length 4 are 1.7 million paths, 67 minutes, per property); volumes, reporters, guessed editions, pages, party names, antecedents, pin cites and token indexes symbolic (integers unbounded). Stubs: hash_sha256 injective; strip_punct identity (names without punctuation); re.match on the pin cite by contract. Trusted: interpreter (self-tested on extracted documents each run), z3, the reference model in vf/harness/c06.py."
+_RES_NOTE = "Bounds: lists of 3 citations over 9 abstract kinds (quick C07/C08 add the 4-citation slices over {full case, short} and {full case, supra}; thorough adds optional party names / reference name fields at length 3 and every 4-citation list over the 5-6 kinds the property is about - all 9 kinds at length 4 are 1.7 million paths, 67 minutes, per property); volumes, reporters, guessed editions, pages, party names, antecedents, pin cites and token indexes symbolic (integers unbounded). Stubs: hash_sha256 injective; strip_punct identity (names without punctuation); re.match on the pin cite by contract - the last two are discharged by lemmas run on the real functions with character-level symbolic strings (pin-cite lemma: _has_invalid_pin_cite on <=5/6 arbitrary characters and, with the first page as text, on every string of <=2/3 characters accepted by the database's page patterns; strip_punct lemma on <=2/3 characters). Trusted: interpreter (self-tested on extracted documents each run), z3, the reference model in vf/harness/c06.py."
 CHECKS["C06"] = dict(
     engine="symex", category="other",
     text="Bounded symbolic verification of the real resolve_citations and citation/Resource hash+eq source: on every feasible path the mapping's values are disjoint ordered sub-sequences of the input led by a full citation, every full citation is under exactly one resource, unknown citations never appear, and two full citations share a resource iff the specification equality (volume, page, normalised reporter, no placeholder page - for journal citations too) holds - a z3 validity query per path; a history phase corrects a resolved citation's page through its public groups and resolves again (the grouping must follow).",
@@ -55,7 +55,7 @@ CHECKS["C06"] = dict(
 )
 CHECKS["C07"] = dict(
     engine="symex", category="other",
-    text="Same exploration as C06; on every path each short/supra/reference citation is attached to a resource only if an independent reference model (z3 formulas over the same symbolic attributes) says that resource is the unique admissible one, and left out otherwise; id. follows only its predecessor's resource and only inside the page window [p, p+150] with a numeric pin cite and a non-placeholder case page.",
+    text="Same exploration as C06; on every path each short/supra/reference citation is attached to a resource only if an independent reference model (z3 formulas over the same symbolic attributes) says that resource is the unique admissible one, and left out otherwise; id. follows only its predecessor's resource and only inside the page window [p, p+150] with a numeric pin cite and a non-placeholder case page. The pin-cite test itself is decided on text: 'rejected iff the pin cite does not start (after an optional at) with a decimal number or the number lies outside [p, p+150]' for arbitrary characters.",
     note=_RES_NOTE + " The placeholder-page rule is applied to case citations (journal/law citations with a None page do not block id.), as the code and the property's kind alphabet have it.", technique=SYMEX, design_ref="DESIGN.md section 3, C06-C08",
 )
 CHECKS["C08"] = dict(
@@ -66,14 +66,14 @@ CHECKS["C08"] = dict(
 
 CHECKS["C16"] = dict(
     engine="symex", category="other",
-    text="Bounded symbolic verification of the real __hash__/__eq__/corrected_reporter/guess_edition/Resource source on pairs (quick) / triples (thorough) of citations with symbolic volume/page/reporter, 7 candidate-edition configurations and poisoned context: equivalence laws, ==/hash/Resource agreement and 'equal iff same class, volume, page, normalised reporter and no placeholder' are z3 validity queries per path; plus an exhaustive concrete sweep of reporters-db's unambiguous variations through the real extractor.",
-    note="Stubs: hash_sha256 injective; id() distinct. Outside: corrected_citation() re-parse round trip, years (C18), supra/reference equality. The reporters-db sweep is enumeration of data, reported separately from the solver result.",
+    text="Bounded symbolic verification of the real __hash__/__eq__/corrected_reporter/guess_edition/Resource source on pairs (quick) / triples (thorough) of citations with symbolic volume/page/reporter, 7 candidate-edition configurations and poisoned context: equivalence laws, ==/hash/Resource agreement and 'equal iff same class, volume, page, normalised reporter and no placeholder' are z3 validity queries per path; case citations carry the database's other regex groups (year, nominative reporter/volume) with arbitrary values that must not matter; normal-form clause on citations V R P with arbitrary digits and page markers (character-level symbolic strings): corrected_citation() is V + canonical reporter + standardised page, is a fixed point, and the citation it is parsed into is == / hash-equal to the original; plus an exhaustive concrete sweep of reporters-db's unambiguous variations through the real extractor.",
+    note="Stubs: hash_sha256 injective; id() distinct. Outside: that the extractor captures the three components of a normal-form text (C01's recognisability clauses), normal forms of other shapes, years (C18), supra/reference equality. The reporters-db sweep is enumeration of data, reported separately from the solver result.",
     technique=SYMEX, design_ref="DESIGN.md section 3, C16",
 )
 CHECKS["C18"] = dict(
     engine="symex", category="other",
     text="Bounded symbolic verification of the real get_year, guess_edition, Edition.includes_year and disambiguate_reporters source with symbolic years, edition date ranges (or None) and clock: the guess is a candidate, is made iff there is one candidate or a year singles one out, the numeric year is in [1600, bound] and equals the text, disambiguation keeps exactly the non-resource or guessed citations in order; the year-assignment sites and the remove_ambiguous tail are folded in from the extraction and filter harnesses.",
-    note="Bounds: <=2 (quick) / <=3 (thorough) candidate editions, <=3/4 citations. Stubs: datetime.now().year and helpers._highest_valid_year symbolic. Parallel citations: is_parallel_citation keeps 'numeric year == value of the textual year, in range' (pre-state invariant assumed for both citations). Outside: which edition a year inherited from a parallel citation selects.",
+    note="Bounds: <=3 (quick) / <=4 (thorough) candidate editions, <=3/4 citations. Stubs: datetime.now().year and helpers._highest_valid_year symbolic. Parallel citations: is_parallel_citation keeps 'numeric year == value of the textual year, in range' (pre-state invariant assumed for both citations). Outside: which edition a year inherited from a parallel citation selects.",
     technique=SYMEX, design_ref="DESIGN.md section 3, C18",
 )
 
@@ -105,7 +105,7 @@ CHECKS["C17"] = dict(
 )
 CHECKS["C04"] = dict(
     engine="symex", category="other",
-    text="PARTIAL (pure-Python layers): 'no feasible path ends in an exception' asserted on the symbolic explorations of the extraction helpers, Tokenizer.tokenize, resolve_citations and annotate_citations/SpanUpdater (and HyperscanTokenizer's offset table / cache loader) under contract stubs for the C libraries; exception paths are replayed on the real code.",
+    text="PARTIAL (pure-Python layers): 'no feasible path ends in an exception' asserted on the symbolic explorations of the extraction helpers, Tokenizer.tokenize, resolve_citations and annotate_citations/SpanUpdater (and HyperscanTokenizer's offset table / cache loader) under contract stubs for the C libraries; plus the id. pin-cite test and strip_punct on character-level symbolic strings (arbitrary Unicode); exception paths are replayed on the real code.",
     note="Not decided: exceptions or non-termination inside regex/hyperscan/lxml/pyahocorasick/diff-match-patch on hostile strings; get_citations glue beyond the interpreted helpers. Bounds as in C02, C06, C09, C12.", technique=SYMEX, design_ref="DESIGN.md section 3, C04",
 )
 
@@ -119,7 +119,7 @@ CHECKS["C14"] = dict(
 
 CHECKS["C15"] = dict(
     engine="symex", category="other",
-    text="PARTIAL (hash-randomisation clause + frame condition). With `set` iteration order modelled as a symbolic permutation (and iteration over any hash set met by the interpreted code permuted likewise), the real get_extractors -> extract_tokens -> tokenize, CitationToken.merge -> token_is_from_nominative_reporter / ResourceCitation.__hash__, and the reference-pattern construction are executed twice per path (identity order vs arbitrary order) and their results compared; a dependence is confirmed by running the real get_citations in fresh processes with different PYTHONHASHSEED values. The tokenizer object is built by the interpreted __post_init__ and a tokenize call must leave its attributes and their containers unchanged (frame condition); a counter-model is confirmed by call sequences in one process against fresh processes, then by 8 threads sharing the default tokenizer.",
+    text="PARTIAL (hash-randomisation clause + frame condition). With `set` iteration order modelled as a symbolic permutation (and iteration over any hash set met by the interpreted code permuted likewise), the real get_extractors -> extract_tokens -> tokenize, CitationToken.merge -> token_is_from_nominative_reporter / ResourceCitation.__hash__, and the reference-pattern construction are executed twice per path (identity order vs arbitrary order) and their results compared; the __hash__ of every value-hashed citation kind and of Resource is executed under two symbolic str-hash seeds (builtin hash of a str = uninterpreted function of seed and value) and must agree; a dependence is confirmed by running the real get_citations in fresh processes with different PYTHONHASHSEED values. The tokenizer object is built by the interpreted __post_init__ and a tokenize call must leave its attributes and their containers unchanged (frame condition); a counter-model is confirmed by call sequences in one process against fresh processes, then by 8 threads sharing the default tokenizer.",
     note="NOT decided: thread schedules (no concurrency model of CPython in this technique; shared state written during a call is detected by the frame condition, an actual race only if the thread replay exposes it) and cross-call history beyond the frame condition. merge()'s set()-based de-duplication is order dependent in principle; an exhaustive sweep of the installed reporters-db shows no merge group where that can change a result (recorded as latent, outside the claim). Candidate-edition tuples are compared as sets.",
     technique="symbolic execution of the Python source with set iteration order as a symbolic permutation (two runs per path, self-composition); subprocess replay with different hash seeds",
     design_ref="DESIGN.md section 3, C15",
@@ -127,15 +127,15 @@ CHECKS["C15"] = dict(
 
 CHECKS["C19"] = dict(
     engine="symex", category="other",
-    text="PARTIAL. Decided on the real source: (a) get_citations' own tail (dispatch, reference collection, parallel detection, filter) executed with and without reference citations on the same prepared citations gives the same non-reference citations, order and parallel comparisons (self-composition per path); (b) every reference produced by extract_pincited_reference_citations starts at or after its citation's span end, has 0 <= full start <= start <= end <= full end <= len(text) and its token text is the slice at its span; (c) find_reference_citations_from_markup with both real SpanUpdaters built from a symbolic diff script and its inverse gives references with valid plain-text offsets that do not start before their citation; (d) the markup search pattern and the name-pincite pattern the code builds for a citation (captured from the interpreted functions) only match strings that contain a party name, case-sensitively - regular-language inclusion by z3, no length bound.",
-    note="NOT decided: the html cleaning step (lxml) and so the whole-pipeline equality with get_citations(clean_text(markup)); the name-validity table (DISALLOWED_NAMES) is taken as given; concrete markup documents serve as the replay corpus for solver counter-models.",
+    text="PARTIAL. Decided on the real source: (a) get_citations' own tail (dispatch, reference collection, parallel detection, filter) executed with and without reference citations on the same prepared citations gives the same non-reference citations, order and parallel comparisons (self-composition per path); (b) every reference produced by extract_pincited_reference_citations starts at or after its citation's span end, has 0 <= full start <= start <= end <= full end <= len(text) and its token text is the slice at its span; (c) find_reference_citations_from_markup with both real SpanUpdaters built from a symbolic diff script and its inverse gives references with valid plain-text offsets that do not start before their citation; (d) the markup search pattern and the name-pincite pattern the code builds for a citation (captured from the interpreted functions) only match strings that contain a party name that passes the name-validity rule, case-sensitively - regular-language inclusion by z3, no length bound, for two party configurations (valid names; valid next to rejected names).",
+    note="NOT decided: the html cleaning step (lxml) and so the whole-pipeline equality with get_citations(clean_text(markup)); the name-validity rule itself (is_valid_name, DISALLOWED_NAMES) is taken as given - what is decided is that only names passing it are searched for; concrete markup documents serve as the replay corpus for solver counter-models.",
     technique=SYMEX, design_ref="DESIGN.md section 3, C19",
 )
 
 CHECKS["C01"] = dict(
     engine="rex+symex", category="other",
-    text="PARTIAL. Decided: (1) for every reporter/law/journal string of the installed database that uses the default template, some extractor listing it recognises V R P (and V R at P) for every volume [1-9]\\d* and page \\d+ between non-alphanumeric neighbours - regular-language inclusion by z3, no length bound; (2) the reporter group's language is exactly the listed strings; (3) short-form extractors are derived from full ones; (4) _extract_full_citation's class wiring over edition-source subsets; (5) the real POST_SHORT/POST_FULL patterns, run by a priority-exact symbolic matcher on documented pin-cite contexts with arbitrary digits, capture exactly the written pin cite (matcher validated against the real regex engine on every path); (6) the full span starts at the extracted plaintiff (symbolic add_defendant).",
-    note="NOT decided: captures on longer contexts, party names, court lookup, parentheticals, 'exactly one citation per written citation' under overlapping patterns, full-span ends - these need the capture semantics of the C regex engines over long windows. Reporter strings with custom templates are outside (1)/(2).",
+    text="PARTIAL. Decided: (1) for every reporter/law/journal string of the installed database that uses the default template, some extractor listing it recognises V R P (and V R at P) for every volume [1-9]\\d* and page \\d+ between non-alphanumeric neighbours - regular-language inclusion by z3, no length bound; (2) the reporter group's language is exactly the listed strings; (3) short-form extractors are derived from full ones; (4) _extract_full_citation's class wiring over edition-source subsets; (5) the real POST_SHORT/POST_FULL patterns, run by a priority-exact symbolic matcher on documented pin-cite contexts with arbitrary digits, capture exactly the written pin cite (matcher validated against the real regex engine on every path); (6) the full span starts at the extracted plaintiff (symbolic add_defendant); (7) the full span of a full case/law/journal citation covers its parenthetical and the closing parenthesis; (8) on year contexts [pin] ( [court] YYYY ) with arbitrary digits and court characters POST_FULL_CITATION_REGEX captures exactly the written pin cite, court and year; (9) the short-form and supra antecedent patterns, anchored as match_on_tokens runs them, capture exactly the written name (and supra volume).",
+    note="NOT decided: captures on longer contexts, party names, court lookup (courts-db table), 'exactly one citation per written citation' under overlapping patterns, full-span ends beyond (7) - these need the capture semantics of the C regex engines over long windows. Reporter strings with custom templates are outside (1)/(2).",
     technique="regular-language inclusion by SMT (z3 seq/re) per extractor + symbolic regex matching over bounded symbolic character arrays + symbolic execution of the Python source",
     design_ref="DESIGN.md section 3, C01",
 )
